@@ -81,10 +81,18 @@ class SignBindingBase(Pipeline):
             e4["atts"][0]["body_key"] = e4["atts"][0]["body_key"][:-2] + ("00" if not e4["atts"][0]["body_key"].endswith("00") else "01")
             c4 = any(n == "C11.StoredBodyIsVotedBody" for n, _, _ in Pipeline.validate(self, [e4]).monfail)
             e5 = copy.deepcopy(g)
-            e5["atts"][0]["diff"] = ["skyway_nonce"]
+            e5["atts"][0]["voters"][0] = [["skyway_nonce"]]
             c5 = any(n == "C11.StoredBodyIsVotedBody" for n, _, _ in Pipeline.validate(self, [e5]).monfail)
             e6 = copy.deepcopy(g)
-            e6["atts"][0]["diff"] = ["orchestrator", "metadata.creator"]     # voter identity may differ
+            e6["atts"][0]["voters"][0] = [["skyway_nonce"], ["orchestrator", "metadata.creator"]]     # voter identity may differ; one agreeing submission suffices
+            e7 = copy.deepcopy(g)
+            sb = next(x for x in e7["subs"] if x["accepted"])
+            sb["homes"] = [["amount", "compass_id"]]                   # an accepted vote that sits only on somebody else's claim
+            c7 = any(n == "C11.StoredBodyIsVotedBody" for n, _, _ in Pipeline.validate(self, [e7]).monfail)
+            e8 = copy.deepcopy(g)
+            next(x for x in e8["subs"] if x["accepted"])["homes"] = []  # an accepted vote that is recorded nowhere
+            c8 = any(n == "C11.StoredBodyIsVotedBody" for n, _, _ in Pipeline.validate(self, [e8]).monfail)
             c6 = not any(n == "C11.StoredBodyIsVotedBody" for n, _, _ in Pipeline.validate(self, [e6]).monfail)
-            res.update(ok=res["ok"] and c4 and c5 and c6, foreign_key_noticed=c4, voter_body_mismatch_noticed=c5, voter_identity_tolerated=c6)
+            res.update(ok=res["ok"] and c4 and c5 and c6 and c7 and c8, foreign_key_noticed=c4, voter_body_mismatch_noticed=c5, voter_identity_tolerated=c6,
+                       misplaced_vote_noticed=c7, lost_vote_noticed=c8)
         return res
